@@ -144,6 +144,8 @@ type callSite struct {
 	form   int
 	negate bool
 	exp    *expansion
+	outer  *ast.CallExpr // formHoist: the call whose argument list contains the site
+	upto   int           // … and the index of the site in that list
 }
 
 const (
@@ -153,6 +155,7 @@ const (
 	formIfCond
 	formReturn
 	formInline // a call anywhere in an expression to a function whose body is `return <expression>`
+	formHoist  // a call that is an argument of the statement's outer call: moved in front of the statement
 )
 
 func (n *normaliser) off(pos token.Pos) int { return n.fset.File(pos).Offset(pos) }
@@ -327,6 +330,9 @@ func (n *normaliser) sites() []*callSite {
 						if cs := n.classify(pk, s, next); cs != nil {
 							cs.pkg, cs.file, cs.encl = pk, f, fd
 							out = append(out, cs)
+						} else if cs := n.classifyHoist(pk, s); cs != nil {
+							cs.pkg, cs.file, cs.encl = pk, f, fd
+							out = append(out, cs)
 						}
 					}
 					if ce, ok := x.(*ast.CallExpr); ok {
@@ -380,6 +386,74 @@ func (n *normaliser) classify(pk *packages.Package, s ast.Stmt, next ast.Stmt) *
 			cs.negate = neg
 			return cs
 		}
+	}
+	return nil
+}
+
+// classifyHoist: the statement's outermost call has, among its arguments, a call of a new function that cannot be
+// replaced in place; with the function operand and the earlier arguments free of effects (or moved along, in
+// order), the argument can be computed in front of the statement.
+func (n *normaliser) classifyHoist(pk *packages.Package, s ast.Stmt) *callSite {
+	var root ast.Expr
+	switch s := s.(type) {
+	case *ast.ExprStmt:
+		root = s.X
+	case *ast.AssignStmt:
+		if len(s.Rhs) == 1 {
+			root = s.Rhs[0]
+		}
+	case *ast.ReturnStmt:
+		if len(s.Results) == 1 {
+			root = s.Results[0]
+		}
+	case *ast.IfStmt:
+		if s.Init == nil {
+			root = s.Cond
+		} else if as, ok := s.Init.(*ast.AssignStmt); ok && len(as.Rhs) == 1 {
+			root = as.Rhs[0]
+		}
+	}
+	if root == nil {
+		return nil
+	}
+	root = ast.Unparen(root)
+	for {
+		if u, ok := root.(*ast.UnaryExpr); ok && u.Op == token.NOT {
+			root = ast.Unparen(u.X)
+			continue
+		}
+		break
+	}
+	outer, ok := root.(*ast.CallExpr)
+	if !ok || outer.Ellipsis.IsValid() {
+		return nil
+	}
+	switch f := ast.Unparen(outer.Fun).(type) {
+	case *ast.Ident:
+	case *ast.SelectorExpr:
+		if !pureStable(f.X) {
+			return nil
+		}
+	default:
+		return nil
+	}
+	if tv, ok := pk.TypesInfo.Types[outer.Fun]; ok && tv.IsType() {
+		return nil // a conversion
+	}
+	for i, a := range outer.Args {
+		call, di, recv, sel := n.eligibleCall(pk, a)
+		if call == nil {
+			continue
+		}
+		if res := di.decl.Type.Results; res == nil || len(res.List) != 1 || len(res.List[0].Names) > 1 {
+			return nil
+		}
+		if len(outer.Args) == 1 {
+			if _, isTuple := pk.TypesInfo.TypeOf(a).(*types.Tuple); isTuple {
+				return nil
+			}
+		}
+		return &callSite{stmt: s, call: call, callee: di, recv: recv, sel: sel, form: formHoist, outer: outer, upto: i}
 	}
 	return nil
 }
@@ -563,6 +637,28 @@ func (n *normaliser) expand(cs *callSite) []textEdit {
 	*n.counter++
 	x := &expansion{n: n, cs: cs, id: *n.counter, info: cs.callee.pkg.TypesInfo, rename: map[token.Pos]string{}, qualify: map[*ast.Ident]string{}, imports: map[string]string{}}
 	cs.exp = x
+	if cs.form == formHoist {
+		// the argument (and every earlier argument with a possible effect, in order) gets a temporary in front of
+		// the statement; the next round replaces the call that now stands in statement position
+		var pre strings.Builder
+		var eds []textEdit
+		file := n.fileOf(cs.stmt.Pos())
+		for j := 0; j <= cs.upto; j++ {
+			a := cs.outer.Args[j]
+			tv := cs.pkg.TypesInfo.Types[a]
+			if j < cs.upto && (pureStable(a) || tv.Value != nil || tv.IsNil()) {
+				continue
+			}
+			if _, isFn := ast.Unparen(a).(*ast.FuncLit); isFn {
+				return n.skip(cs, "an earlier argument is a function literal")
+			}
+			tmp := fmt.Sprintf("_h%d_%d", x.id, j)
+			fmt.Fprintf(&pre, "%s := %s%s; ", tmp, n.lineDir(a.Pos()), n.src(a.Pos(), a.End()))
+			eds = append(eds, textEdit{file, n.off(a.Pos()), n.off(a.End()), tmp + n.lineDir(a.End())})
+		}
+		eds = append(eds, textEdit{file, n.off(cs.stmt.Pos()), n.off(cs.stmt.Pos()), pre.String() + n.lineDir(cs.stmt.Pos())})
+		return eds
+	}
 	x.label = fmt.Sprintf("_L%d", x.id)
 	d := cs.callee.decl
 	callerInfo := cs.pkg.TypesInfo
@@ -656,7 +752,11 @@ func (n *normaliser) expand(cs *callSite) []textEdit {
 	var pre, bind strings.Builder
 	// type parameters: local aliases of the instantiation's type arguments
 	if tps := d.Type.TypeParams; tps != nil {
-		fid, ok := ast.Unparen(cs.call.Fun).(*ast.Ident)
+		fun := ast.Unparen(cs.call.Fun)
+		if se, isSel := fun.(*ast.SelectorExpr); isSel {
+			fun = se.Sel
+		}
+		fid, ok := fun.(*ast.Ident)
 		if !ok {
 			return n.skip(cs, "form not handled (normalise.go:607)")
 		}
